@@ -233,3 +233,39 @@ package engine
 //@   ensures [C18.onegroup] calls((*types.Slice).Shift) == 1
 //@   ensures [C18.cbonce]   ret((*types.Slice).Shift, 1, 1) == nil ==> calls(fn) == len(ret((*types.Slice).Shift, 1, 0))
 //@   ensures [C18.nogroup]  ret((*types.Slice).Shift, 1, 1) != nil ==> calls(fn) == 0
+
+// ---- handshake (C04 registry, C05 rejection branches, C06 one session, C10 limit copied) ---------------
+//@ func NewSocket(id, server, transport, ctx, protocol)
+//@   modifies *
+//@   ensures result != nil
+
+//@ func BaseServer.CreateTransport(name, ctx)
+//@   modifies *
+//@   ensures result1 == nil ==> result0 != nil
+//@ func BaseServer.GenerateId(ctx)
+//@   modifies *
+
+//@ func (*baseServer).Handshake(transportName, ctx)
+//@   props C04, C06, C05, C10
+//@   requires bs != nil && ctx != nil && bs.opts != nil && bs.clients != nil && bs._proto_ != nil && bs.EventEmitter != nil && ctx.query != nil
+//@   modifies *
+//@   let eio4      = uf_s_peek(ctx.query, "EIO", old(ctx.query.$bagver)) == "4"
+//@   let rejectRev = !eio4 && !bs.opts.AllowEIO3()
+//@   ensures [C05.h.rev]    rejectRev ==> result0 == UNSUPPORTED_PROTOCOL_VERSION && result1 == nil
+//@   ensures [C05.h.reject,C04.reject] result1 == nil ==> result0 != nil && emitted(bs.EventEmitter, "connection_error") == 1 && emitted(bs.EventEmitter, "connection") == 0 && calls(NewSocket) == 0 && calls((*types.Map).Store) == 0 && calls((*sync/atomic.Uint64).Add) == 0
+//@   ensures [C05.h.codes]  result0 == nil || result0 == UNSUPPORTED_PROTOCOL_VERSION || result0 == BAD_REQUEST
+//@   ensures [C06.one,C04.one] result1 != nil ==> result0 == nil && calls(NewSocket) == 1 && emitted(bs.EventEmitter, "connection") == 1 && emitted(bs.EventEmitter, "connection_error") == 0
+//@   ensures [C04.registered] result1 != nil ==> calls((*types.Map).Store) == 1 && arg((*types.Map).Store, 1, m) == bs.clients && arg((*types.Map).Store, 1, key) == arg(NewSocket, 1, id) && arg((*types.Map).Store, 1, value) == ret(NewSocket, 1)
+//@   ensures [C04.counted]  result1 != nil ==> calls((*sync/atomic.Uint64).Add) == 1 && arg((*sync/atomic.Uint64).Add, 1, delta) == 1
+//@   ensures [C04.closehook] result1 != nil ==> ncalls(types.EventEmitter.Once, evt == "close" && this == ret(NewSocket, 1)) == 1
+//@   ensures [C06.order]    result1 != nil ==> before(NewSocket, 1, (*types.Map).Store, 1) && before((*types.Map).Store, 1, types.EventEmitter.Once, 1)
+//@   ensures [C06.protocol] result1 != nil ==> arg(NewSocket, 1, protocol) == (eio4 ? 4 : 3) && arg(NewSocket, 1, transport) == result1 && arg(NewSocket, 1, ctx) == ctx
+//@   ensures [C06.rev3]     result1 != nil && !eio4 ==> bs.opts.AllowEIO3()
+
+// the close listener registered by Handshake: removes exactly this id and decrements the count by one (64-bit -1)
+//@ func (*baseServer).Handshake$2()
+//@   props C04
+//@   requires bs != nil && bs.clients != nil
+//@   modifies bs.clients.$mapver, bs.clientsCount
+//@   ensures [C04.unregister] calls((*types.Map).Delete) == 1 && arg((*types.Map).Delete, 1, key) == id && !uf_b_mapHas(bs.clients, id, bs.clients.$mapver)
+//@   ensures [C04.minusone]   bs.clientsCount.v == old(bs.clientsCount.v) - 1
